@@ -564,7 +564,7 @@ fn measure_decoded(c: Coding, chunks: &[Bytes]) -> Option<Vec<usize>> {
     let mut dec = match c {
         Coding::Gzip => Dec::Gz(flate2::write::GzDecoder::new(Vec::new())),
         Coding::Deflate => Dec::Zl(flate2::write::ZlibDecoder::new(Vec::new())),
-        Coding::Br => Dec::Br(Box::new(brotli::DecompressorWriter::new(Vec::new(), 4096))),
+        Coding::Br => Dec::Br(Box::new(brotli::DecompressorWriter::new(Vec::new(), 8_096))),
         #[cfg(feature = "ffi")]
         Coding::Zstd => Dec::Zs(zstd::stream::write::Decoder::new(Vec::new()).ok()?),
         #[cfg(not(feature = "ffi"))]
